@@ -1023,10 +1023,26 @@ pub fn extract_fn(file: &syn::File, name: &str, opts: &Value, rules: &[Rule], pl
         let c = fc.found.ok_or_else(|| format!("lost anchor: closure #{} of `{}` not found", n, parent))?;
         let params = lifted["params"].as_str().unwrap_or("");
         let mut inputs: syn::punctuated::Punctuated<syn::FnArg, syn::token::Comma> = Default::default();
-        for part in params.split(';') {
-            for p in crate::closures::split_top_commas(part) {
+        let mut deref_lets: Vec<Stmt> = vec![];
+        for (pi, part) in params.split(';').enumerate() {
+            for (k, p) in crate::closures::split_top_commas(part).into_iter().enumerate() {
                 let p = p.trim();
                 if p.is_empty() {
+                    continue;
+                }
+                // closure parameter with a reference pattern: `&mut x: T` -> parameter `__cpK: &mut T` + `let x = *__cpK;` (R5)
+                if pi == 1 && p.starts_with('&') {
+                    let (is_mut, rest) = match p.strip_prefix("&mut ") {
+                        Some(r) => (true, r),
+                        None => (false, p[1..].trim()),
+                    };
+                    let (n, t) = rest.split_once(':').ok_or("lift: reference parameter needs a type")?;
+                    let pid = syn::Ident::new(&format!("__cp{}", k), Span::call_site());
+                    let ty: syn::Type = syn::parse_str(t.trim()).map_err(|e| format!("lift parameter type: {}", e))?;
+                    let id = syn::Ident::new(n.trim(), Span::call_site());
+                    let a: syn::FnArg = if is_mut { syn::parse_quote!(#pid: &mut #ty) } else { syn::parse_quote!(#pid: &#ty) };
+                    inputs.push(a);
+                    deref_lets.push(syn::parse_quote!(let #id = *#pid;));
                     continue;
                 }
                 // `name = expr : type` (how the captured value is passed) -> `name : type`
@@ -1047,7 +1063,11 @@ pub fn extract_fn(file: &syn::File, name: &str, opts: &Value, rules: &[Rule], pl
             }
             _ => syn::ReturnType::Default,
         };
-        pf.block = Some(crate::closures::closure_body_block(&c));
+        let mut body = crate::closures::closure_body_block(&c);
+        for (k, l) in deref_lets.into_iter().enumerate() {
+            body.stmts.insert(k, l);
+        }
+        pf.block = Some(body);
         pf.impl_generics = None;
         pf.self_ty = None;
         pf.trait_path = None;
